@@ -89,7 +89,10 @@ def gen_ops(rng, obs, nops):
         for _ in range(rng.choice([1, 2, 3])):
             ops.append(["recompute", []])
             a = rng.randrange(64)
-            ops.append(["improve", [a, a + 1] if rng.random() < 0.6 else [a, a + 1, a + 2]])
+            lst = [a, a + 1] if rng.random() < 0.6 else [a, a + 1, a + 2]
+            if rng.random() < 0.5:
+                lst.reverse()        # successor listed before its predecessor (seeded C09e)
+            ops.append(["improve", lst])
             if rng.random() < 0.5:
                 ops.append([rng.choice(["greedy_end", "consistent_end"])])
             if rng.random() < 0.5:
